@@ -22,6 +22,7 @@ from . import tm
 from .driver import Accounting, Suspend, Task
 from .instruments import Cancelled, InjectedError, Item
 from .report import Verdict
+from .graph import stream_replays
 from .tlc import MachineryError, read_ndjson, run_tlc
 from .tracecheck import validate
 
@@ -319,9 +320,9 @@ TIERS = {
     "mini": [(2, 2, 1, True, 0, True), (2, 2, 1, True, 1, True), (2, 2, 1, True, 0, False), (3, 2, 0, False, 0, True)],   # when run on behalf of another property
     "quick": [(2, 2, 1, True, 0, True), (3, 2, 1, True, 0, True), (2, 2, 1, True, 1, True), (2, 2, 1, True, 0, False),
               (3, 1, 0, True, 1, True), (2, 2, 0, False, 0, True), (3, 2, 0, False, 0, True)],
-    "thorough": [(2, 3, 2, True, 0, True), (3, 3, 2, True, 0, True), (3, 3, 1, True, 1, True), (3, 2, 2, True, 1, False),
-                 (4, 2, 1, True, 0, True), (2, 4, 2, True, 1, True), (3, 2, 1, True, 0, False),
-                 (3, 3, 0, False, 0, True), (4, 3, 0, False, 0, True), (3, 3, 0, True, 1, True)],
+    "thorough": [(3, 3, 1, True, 0, True), (3, 2, 2, True, 1, True), (3, 3, 2, True, 0, True), (2, 4, 2, True, 1, True),
+                 (3, 2, 1, True, 0, False), (3, 3, 0, False, 0, True), (4, 2, 0, False, 0, True), (4, 3, 0, False, 0, True),
+                 (3, 3, 0, True, 1, True)],
 }
 
 
@@ -486,16 +487,19 @@ def check(prop, tier, seed, into=None):
         paths = build_paths(edges)
         tot["paths"] += len(paths)
         jobs = [((n, srclen, susp, uselock, exitsusp, closable), p, False) for p in paths]
+        del edges, paths
+        cap = 1000 if tier == "mini" else 3000 if tier == "quick" else 20000
         with mp.Pool(min(16, os.cpu_count() or 4)) as pool:
-            results = pool.map(replay_path, jobs, chunksize=max(1, len(jobs) // 128))
-        drifted = [r for r in results if r["drift"]]
-        clean = [r for r in results if not r["drift"]]
+            drifted, sample, bad, _nclean = stream_replays(pool, replay_path, jobs, rnd, cap)
+        del jobs
         tot["drift"] += len(drifted)
-        sample = clean if tier == "thorough" and len(clean) <= 60000 else rnd.sample(clean, min(len(clean), 1000 if tier == "mini" else 3000 if tier == "quick" else 60000))
         alltraces += drifted + sample
-        for r in results:
-            if not r["acct_ok"]:
-                v.violation(f"{prop}/tee/foreign-suspension", {"engine": "tee", "path": r["path"], "cfg": r["cfg"]})
+        for b in bad:
+            v.violation(f"{prop}/tee/foreign-suspension", {"engine": "tee", **b})
+    if tier == "thorough":   # four children with lock and a suspending source: model checking only (0.9 M transitions)
+        big = run_tlc("Tee", cfg_text(4, 2, 1, True, 0, True, edges=False), timeout=3000)
+        tot["states"] += big["distinct"]
+        tot["transitions"] += big["generated"]
     # 3. negative control: outside the premise (no lock, suspending source) the model must fail
     neg = run_tlc("Tee", cfg_text(3, 2, 1, False, 0, False, edges=False, invs=["Complete"]), expect_violation=True, timeout=600)
     if neg["ok"]:
